@@ -221,6 +221,12 @@ func (d *dataRecord) GetBuffer() []byte {
 		}
 		index += element.GetLength()
 	}
+	// The record length was fixed when the elements were added. If the value of a
+	// variable-length element was changed since, the encoded fields do not fill the buffer.
+	if index != d.len && d.encodeErr == nil {
+		d.encodeErr = fmt.Errorf("encoded length %d of the data record differs from its record length %d", index, d.len)
+		klog.Error(d.encodeErr)
+	}
 	return d.buffer
 }
 
